@@ -15,8 +15,10 @@ LEVEL_TEXT = ("Theorems in Lean about the executable model of render_recipe_tree
               "+ one class per non-normal border) and of the HTML table-forming algorithm applied to it; model tied to renderer/html.py by token-stream "
               "equality (byte equality recorded) over decorated random trees and id prefixes.")
 LEVEL_NOTE = ("Trusted: Lean kernel; hand-written model as far as correspondence exercises it; Python's html.parser as the tokenizer of the oracle. "
-              "Placement theorem place(emit(layout t)) = cells is checked by the oracle on every generated tree where not yet a theorem.")
-LEAN_MODULES = ["RecipeGrid.Props.C04"]
+              "The visible text of every cell body is a theorem against an independent HTML tokenizer written in Lean (renderCellBody_text / _text_full: "
+              "amount then description resp. output names, numbers as format_number shows them; exact for one-line bodies, modulo HTML whitespace "
+              "collapsing where a conversions list is present; renderCellBody_skeleton: the element structure does not depend on the text).")
+LEAN_MODULES = ["RecipeGrid.Props.C04", "RecipeGrid.Props.C04b"]
 SOURCES = ["recipe_grid/renderer/html.py", "recipe_grid/renderer/table.py", "recipe_grid/renderer/recipe_to_table.py"]
 RULE = ("random recipe trees as in C02 decorated with every quantity/proportion form, known and free-form units, names with scaled numbers and markup "
         "characters, random id prefixes; non-trivial = more than one cell; distinct = distinct (tree, prefix)")
@@ -30,7 +32,8 @@ def gen_cases(run, n):
     out = []
     for _ in range(n):
         out.append((gen_trees.gen_root(rng, rng.choice([0, 1, 2, 3, 4, 6]), shared, max_arity=rng.choice([2, 4])), rng.choice(PREFIXES)))
-    return out
+    # now and then the same tree again with its numbers in the other type of equal value / its units in the other letter case
+    return gen_trees.with_twins(rng, out)
 
 
 def correspondence(run):
